@@ -110,10 +110,63 @@ func NewCtx(id, tier string) (*Ctx, error) {
 		}
 	}
 	c.Deadline = c.Start.Add(budget)
+	initGoCache(id, scratch)
 	if err := c.loadKnown(); err != nil {
 		return nil, err
 	}
 	return c, nil
+}
+
+// GoCacheBase is the warm Go build cache produced by `mcx warm` (setup.sh). Every check works in its own
+// GOCACHE under its scratch directory, seeded with hard links to the base and removed with the scratch: the
+// thousands of one-off scratch modules a check compiles never accumulate in the user's build cache.
+func GoCacheBase() string {
+	if v := os.Getenv("VERIF_GOCACHE_BASE"); v != "" {
+		return v
+	}
+	return filepath.Join(VerifDir(), ".cache", "gocache-base")
+}
+
+func initGoCache(id, scratch string) {
+	if os.Getenv("VERIF_SHARED_GOCACHE") != "" {
+		return
+	}
+	base := GoCacheBase()
+	if id == "warm" {
+		// build into a fresh directory, swapped in by FinishWarm
+		tmp := base + ".new"
+		os.RemoveAll(tmp)
+		if os.MkdirAll(tmp, 0o755) == nil {
+			os.Setenv("GOCACHE", tmp)
+		}
+		return
+	}
+	dst := filepath.Join(scratch, "gocache")
+	if st, err := os.Stat(base); err == nil && st.IsDir() {
+		if out, err := exec.Command("cp", "-al", base, dst).CombinedOutput(); err != nil {
+			fmt.Fprintf(os.Stderr, "note: could not link the warm build cache (%v %s); starting cold\n", err, strings.TrimSpace(string(out)))
+			os.RemoveAll(dst)
+		}
+	}
+	if os.MkdirAll(dst, 0o755) == nil {
+		os.Setenv("GOCACHE", dst)
+	}
+}
+
+// FinishWarm publishes the cache built by `mcx warm`.
+func FinishWarm() {
+	base := GoCacheBase()
+	tmp := base + ".new"
+	if os.Getenv("GOCACHE") != tmp {
+		return
+	}
+	old := base + ".old"
+	os.RemoveAll(old)
+	os.Rename(base, old)
+	if err := os.Rename(tmp, base); err != nil {
+		fmt.Fprintln(os.Stderr, "warm:", err)
+	}
+	os.RemoveAll(old)
 }
 
 func (c *Ctx) Expired() bool { return time.Now().After(c.Deadline) }
